@@ -78,3 +78,8 @@ pub fn vx_value_from_vec(v: Vec<Value>) -> (r: Value) ensures r == array_value(v
 /// `vec![a, b, ..]`
 #[verifier::external_body]
 pub fn vx_vec_of<T, const N: usize>(a: [T; N]) -> (r: Vec<T>) ensures r@ == a@ { unimplemented!() }
+/// `map.iter().collect()` into a boxed slice of (&key, &value): the entries, each once, in SOME order
+#[verifier::external_body]
+pub fn vx_map_entry_refs_boxed<'a>(m: &'a Map) -> (r: Box<Vec<(&'a Key<'static>, &'a Value)>>)
+    ensures lists(derefs(r@), m@)
+{ unimplemented!() }
